@@ -80,7 +80,7 @@ def hostile_id_histories(s, n):
         rng = s.rng('hid', h)
         pool = gen.text_pool('hostile')
         sids = rng.sample(gen.HOSTILE_IDS, rng.randint(2, 6))
-        ro_txt = gen.rand_ro(rng, story_ids=sids, n_stories=len(sids), pool=pool,
+        ro_txt = gen.rand_ro(rng, story_ids=sids, n_stories=len(sids), pool=pool, ed_start='wild',
                              timing=rng.choice(['any', 'none', 'timed', 'wild', 'wild']))
         ro = s.load(ro_txt)
         cur = ro_txt
@@ -114,7 +114,7 @@ def nonstrict_collections(s, n):
             continue
         rng = s.rng('coll', c)
         pool = gen.text_pool('plain')
-        ro_txt = gen.rand_ro(rng, n_stories=rng.randint(1, 5), pool=pool, message_id=1,
+        ro_txt = gen.rand_ro(rng, n_stories=rng.randint(1, 5), pool=pool, message_id=1, ed_start='wild',
                              timing=rng.choice(['any', 'none']))
         state = Abs(ro_txt)
         ids = gen.Ids('N%d.' % c)
@@ -174,7 +174,8 @@ def run(s):
         if s.mine(i):
             rng = s.rng('state', i)
             pool = gen.text_pool('hostile')
-            ro_txt = gen.rand_ro(rng, n_stories=rng.randint(0, 5), pool=pool, timing=rng.choice(['any', 'none', 'timed']))
+            ro_txt = gen.rand_ro(rng, n_stories=rng.randint(0, 5), pool=pool, timing=rng.choice(['any', 'none', 'timed']),
+                                 ed_start='wild')
             for kind, shapes, kw in gen.shape_product(rng, Abs(ro_txt), gen.Ids('P%d.' % i), pool):
                 K.run_case(s, ro_txt, kind, kw, pretty=rng.random() < 0.5, ctx={'shapes': shapes})
     K.story_grid(s, 3, layouts=('between',), pretties=(False,), full=False, timed=(False,))
@@ -183,7 +184,8 @@ def run(s):
     K.story_grid(s, 6, layouts=('none',), pretties=(False,), kmax=2, full=False, names=K.HOSTILE_NAMES_C)
     K.item_grid(s, 6, pretties=(False,), kmax=2, full=False, inters=(False,), item_names=K.HOSTILE_NAMES_C)
     K.fuzz(s, 150 if q else 6000, K.kind_weights(1, 1, 0.4, 0.02), steps=(10, 40), text='hostile',
-           timing='any', shape_weights=(0.5, 0.2, 0.25, 0.05), selfref=0.25, blank_carried=0.06, direct=0.15)
+           timing='any', shape_weights=(0.5, 0.2, 0.25, 0.05), selfref=0.25, blank_carried=0.06, direct=0.15,
+           ro_kw={'ed_start': 'wild'})
     hostile_id_histories(s, 120 if q else 2500)
     nonstrict_collections(s, 200 if q else 5000)
     classify_docs(s, 800 if q else 40000)
